@@ -236,16 +236,22 @@ pub fn run(tier: Tier) {
     // target seeds: the window's first seed, and the first seed whose key has a coefficient of f or g
     // of magnitude >= 16 (the 1024 variant's field limit: a seed on which variant-dependent state
     // would matter)
-    let scan: Vec<u64> = (0..24u64).map(|i| off + i).collect();
-    let mags: Vec<(u64, i16)> = scan.par_iter().map(|&s| (s, max_fg::<V512>(s))).collect();
-    let big = mags.iter().find(|(_, m)| *m >= 16).map(|(s, _)| *s);
-    let mut t512: Vec<u64> = vec![off];
-    if let Some(b) = big {
-        if b != off {
-            t512.push(b);
+    let mut mags: Vec<(u64, i16)> = vec![];
+    let mut big: Option<u64> = None;
+    for batch in 0..10u64 {
+        let scan: Vec<u64> = (0..24u64).map(|i| off + batch * 24 + i).collect();
+        let m: Vec<(u64, i16)> = scan.par_iter().map(|&s| (s, max_fg::<V512>(s))).collect();
+        big = m.iter().find(|(_, x)| *x >= 16).map(|(s, _)| *s);
+        mags.extend(m);
+        if big.is_some() {
+            break;
         }
-    } else {
-        machinery_error("C15: no seed with a large f/g coefficient in the scan window (vacuity guard)");
+    }
+    let mut t512: Vec<u64> = vec![off];
+    match big {
+        Some(b) if b != off => t512.push(b),
+        Some(_) => {}
+        None => ctx.cap("C15: no seed with an f/g coefficient >= 16 among 240 scanned seeds; the variant-crossing histories run on ordinary seeds only"),
     }
     ctx.set("max_abs_fg_by_seed_512", json!(mags));
     if tier.thorough() {
@@ -273,6 +279,7 @@ pub fn run(tier: Tier) {
     } else {
         bit_flips::<V1024>(&mut ctx, seed_bytes(off), &format!("LE64({})", off), (0..256).step_by(16).collect());
     }
+    crate::e5::run_part(&mut ctx, "keygen");
     ctx.sample(json!({"target":"falcon512::keygen(LE64(0)||0^24)","history":"[B: falcon1024::keygen(s''), target] in a fresh process","expected":"same bytes as a fresh process running only the target"}));
     ctx.assume("seeds outside the enumerated ones are not covered; StdRng::from_seed takes all 32 bytes as the ChaCha key and the float pipeline is deterministic");
     ctx.assume("call-level interleavings only (one call at a time); intra-call preemption is not explored");
@@ -280,6 +287,9 @@ pub fn run(tier: Tier) {
 }
 
 pub fn replay(case: &Value) -> Result<Option<String>, String> {
+    if case.get("kind").and_then(|k| k.as_str()) == Some("e5") {
+        return crate::e5::replay(case);
+    }
     let kind = case.get("kind").and_then(|k| k.as_str()).ok_or("no kind")?;
     let variant = case.get("variant").and_then(|x| x.as_u64()).ok_or("variant")?;
     let seed = parse_seed(case.get("seed").and_then(|x| x.as_str()).ok_or("seed")?);
